@@ -1,5 +1,5 @@
 CONSTANTS
-  NC = 2
+  NC = 1
   NL = 1
   WRun = {1}
   WTerm = {2}
